@@ -144,7 +144,7 @@ func c15lProbe(kind string, a c15lAddr) (obs string, msgs map[string]string) {
 	bp, bm := safely(func() {
 		ap.EndBlocker(ctx, abci.RequestEndBlock{Height: 2})
 		hdr.Height = 3
-		ctx3 := ap.BaseApp.NewContext(false, hdr)
+		ctx3 := ap.BaseApp.NewContext(false, hdr).WithBlockGasMeter(c15FilledMeter(c15BlockGasLimit - 1)) // a finite, almost full block gas meter
 		ap.BeginBlocker(ctx3, abci.RequestBeginBlock{Header: hdr})
 		ap.EndBlocker(ctx3, abci.RequestEndBlock{Height: 3})
 	})
